@@ -110,7 +110,12 @@ func c15LongConnection(c *core.Collector, d consts.ActiveSafetyType) {
 // c15BigFile: one file of 32 MiB + 1 KiB (and, thorough, 80 MiB) in 64 KiB chunks, a gap resent after the first 0x1212.
 func c15BigFile(c *core.Collector, d consts.ActiveSafetyType, size int, seed uint64) {
 	g := gen.G{Rand: core.NewRand(seed, "c15big", uint64(size))}
-	p := &attPlan{Kind: "att", Gen: fmt.Sprintf("one file of %d bytes", size), Dialect: int(d), V2019: g.Bool(), Serial0: g.U16(), Phone: "013800007777",
+	v19 := g.Bool()
+	phone := "013800007777"
+	if v19 {
+		phone = "00000000013800007777" // (the 2019 header carries a 10-byte BCD phone)
+	}
+	p := &attPlan{Kind: "att", Gen: fmt.Sprintf("one file of %d bytes", size), Dialect: int(d), V2019: v19, Serial0: g.U16(), Phone: phone,
 		TermID: core.Hex([]byte("T7")), AlarmID: core.Hex([]byte("big")), BigWrites: true, Mode: "unit-per-write"}
 	f := attFile{Name: core.Hex([]byte("big.bin")), Size: size, ContSd: g.U64(), Type: 2, Dense: true}
 	const cs = 65536
